@@ -1,7 +1,7 @@
 (* C15 proofs, top level: the records of deduplicate_majority. *)
 From Coq Require Import ZArith List Bool Lia QArith.
 Import ListNotations.
-From SCMO Require Import Lib.Val Lib.PyInt Lib.PyIntFacts Model.C15 Proofs.C15_a Proofs.C15_b Proofs.C15_c.
+From SCMO Require Import Lib.Val Lib.PyInt Lib.PyIntFacts Gen.GenDedup Model.C15 Proofs.C15_g Proofs.C15_a Proofs.C15_b Proofs.C15_c.
 Open Scope Z_scope.
 
 Definition rec_positions (r : crec) : list Z := expand (c_start r) (c_cigar r).
@@ -17,18 +17,33 @@ Proof.
   destruct Hy as [<-|Hy]; [lia|]. specialize (H y Hy). lia.
 Qed.
 
+(* the (character, amount) list of get_CIGAR drives generate_partial_reads like the M/N list *)
+Lemma consensus_unfold caller qcaller ref maxN m reads :
+  consensus caller qcaller ref maxN m reads =
+  match alignment_start (runs (covered reads)) with
+  | None => None
+  | Some s => Some (map (record_of ref m)
+                        (partial_reads (call_at caller (all_obs reads)) (qual_at qcaller (all_obs reads)) maxN
+                                       (cigar_of_runs (runs (covered reads))) s))
+  end.
+Proof.
+  unfold consensus, get_cigar, covered. cbn zeta.
+  destruct (alignment_start (runs (sort_uniq (map o_pos (all_obs reads))))); [|reflexivity].
+  now rewrite partial_reads_raw_of.
+Qed.
+
 (* everything the later theorems need about one run of deduplicate_majority *)
-Lemma consensus_inv caller ref maxN m reads recs :
-  consensus caller ref maxN m reads = Some recs ->
+Lemma consensus_inv caller qcaller ref maxN m reads recs :
+  consensus caller qcaller ref maxN m reads = Some recs ->
   exists s ps,
     covered reads <> [] /\
     recs = map (record_of ref m) ps /\
-    Forall (rec_ok (call_at caller (all_obs reads)) maxN) ps /\
+    Forall (rec_ok (call_at caller (all_obs reads)) (qual_at qcaller (all_obs reads)) maxN) ps /\
     pcat ps = covered reads /\
     length ps = S (n_long maxN (cigar_of_runs (runs (covered reads)))) /\
     alignment_start (runs (covered reads)) = Some s.
 Proof.
-  unfold consensus. fold (covered reads). intros H.
+  rewrite consensus_unfold. intros H.
   pose proof (sort_uniq_inc (map o_pos (all_obs reads))) as Hinc. fold (covered reads) in Hinc.
   pose proof (runs_expand (covered reads)) as Hexp.
   destruct (covered reads) as [|x0 cov] eqn:Ecov; [discriminate H|].
@@ -38,17 +53,17 @@ Proof.
   - rewrite (alignment_start_first s e t (x0 - 2) Hok) in H. injection H as <-.
     assert (Hcig : okM None (cigar_of_runs ((s, e) :: t))).
     { apply (cigar_of_runs_ok (x0 - 2)); [discriminate|assumption]. }
-    destruct (partial_reads_spec (call_at caller (all_obs reads)) maxN _ s Hcig) as (P1 & P2 & P3).
-    cbn zeta in *. exists s, (partial_reads (call_at caller (all_obs reads)) maxN (cigar_of_runs ((s, e) :: t)) s).
+    destruct (partial_reads_spec (call_at caller (all_obs reads)) (qual_at qcaller (all_obs reads)) maxN _ s Hcig) as (P1 & P2 & P3).
+    cbn zeta in *. exists s, (partial_reads (call_at caller (all_obs reads)) (qual_at qcaller (all_obs reads)) maxN (cigar_of_runs ((s, e) :: t)) s).
     repeat split; try assumption; try discriminate.
     + rewrite P2, cigar_of_runs_expand. exact Hexp.
     + now rewrite (alignment_start_first s e t (x0 - 2) Hok).
 Qed.
 
-Lemma consensus_none caller ref maxN m reads :
-  consensus caller ref maxN m reads = None <-> all_obs reads = [].
+Lemma consensus_none caller qcaller ref maxN m reads :
+  consensus caller qcaller ref maxN m reads = None <-> all_obs reads = [].
 Proof.
-  unfold consensus. fold (covered reads). split.
+  rewrite consensus_unfold. split.
   - intros H. destruct (covered reads) as [|x0 cov] eqn:Ecov.
     + apply sort_uniq_nil in Ecov. now apply map_eq_nil in Ecov.
     + exfalso.
@@ -62,15 +77,15 @@ Proof.
 Qed.
 
 (* ---- C15_blocks_exact *)
-Lemma blocks_exact caller ref maxN m reads recs :
-  consensus caller ref maxN m reads = Some recs ->
+Lemma blocks_exact caller qcaller ref maxN m reads recs :
+  consensus caller qcaller ref maxN m reads = Some recs ->
   flat_map rec_positions recs = covered reads /\
   inc (covered reads) /\
   (forall p, In p (covered reads) <-> exists o, In o (all_obs reads) /\ o_pos o = p) /\
   Forall (fun r => okM maxN (c_cigar r)) recs /\
   length recs = S (n_long maxN (cigar_of_runs (runs (covered reads)))).
 Proof.
-  intros H. destruct (consensus_inv _ _ _ _ _ _ H) as (s & ps & Hne & -> & Hok & Hcat & Hlen & _).
+  intros H. destruct (consensus_inv _ _ _ _ _ _ _ H) as (s & ps & Hne & -> & Hok & Hcat & Hlen & _).
   repeat split.
   - rewrite flat_map_map. exact Hcat.
   - apply sort_uniq_inc.
@@ -81,29 +96,45 @@ Proof.
 Qed.
 
 (* ---- C15_lengths and the sequence as calls *)
-Lemma record_seq caller ref maxN m reads recs r :
-  consensus caller ref maxN m reads = Some recs -> In r recs ->
+Lemma record_seq caller qcaller ref maxN m reads recs r :
+  consensus caller qcaller ref maxN m reads = Some recs -> In r recs ->
   c_seq r = map (call_at caller (all_obs reads)) (rec_positions r) /\
   Z.of_nat (length (c_seq r)) = query_len (c_cigar r) /\
   length (c_seq r) = length (rec_positions r).
 Proof.
-  intros H Hr. destruct (consensus_inv _ _ _ _ _ _ H) as (s & ps & Hne & -> & Hok & _).
+  intros H Hr. destruct (consensus_inv _ _ _ _ _ _ _ H) as (s & ps & Hne & -> & Hok & _).
   apply in_map_iff in Hr. destruct Hr as (p & <- & Hp).
-  rewrite Forall_forall in Hok. destruct (Hok p Hp) as (Hc & Hs & Hm & He).
+  rewrite Forall_forall in Hok. destruct (Hok p Hp) as (Hc & Hs & Hq & Hm & He).
   unfold rec_positions, record_of. cbn [c_seq c_start c_cigar]. fold (pexpand p).
   split; [exact Hs|]. rewrite Hs, map_length. split; [|reflexivity].
   apply expand_length. eapply okM_M_pos. exact Hc.
 Qed.
 
+(* ---- one quality per base: the quality of the column at that position *)
+Lemma record_qual caller qcaller ref maxN m reads recs r :
+  consensus caller qcaller ref maxN m reads = Some recs -> In r recs ->
+  c_qual r = map (qual_at qcaller (all_obs reads)) (rec_positions r) /\
+  length (c_qual r) = length (c_seq r) /\
+  Z.of_nat (length (c_qual r)) = query_len (c_cigar r).
+Proof.
+  intros H Hr. destruct (record_seq _ _ _ _ _ _ _ _ H Hr) as (Hs & Hl & Hl2).
+  destruct (consensus_inv _ _ _ _ _ _ _ H) as (s & ps & Hne & -> & Hok & _).
+  apply in_map_iff in Hr. destruct Hr as (p & <- & Hp).
+  rewrite Forall_forall in Hok. destruct (Hok p Hp) as (Hc & Hs' & Hq & Hm & He).
+  unfold rec_positions, record_of in *. cbn [c_seq c_qual c_start c_cigar] in *. fold (pexpand p) in *.
+  split; [exact Hq|]. rewrite Hq, Hs', !map_length. split; [reflexivity|].
+  rewrite <- Hl, Hs', map_length. reflexivity.
+Qed.
+
 (* ---- C15_md *)
-Lemma record_md caller ref maxN m reads recs r :
-  consensus caller ref maxN m reads = Some recs -> In r recs ->
+Lemma record_md caller qcaller ref maxN m reads recs r :
+  consensus caller qcaller ref maxN m reads = Some recs -> In r recs ->
   (forall p, is_digit (ref p) = false) ->
   md_decode (c_md r) (c_seq r) = Some (map (fun p => upper (ref p)) (rec_positions r)).
 Proof.
-  intros H Hr Href. destruct (consensus_inv _ _ _ _ _ _ H) as (s & ps & Hne & -> & Hok & _).
+  intros H Hr Href. destruct (consensus_inv _ _ _ _ _ _ _ H) as (s & ps & Hne & -> & Hok & _).
   apply in_map_iff in Hr. destruct Hr as (p & <- & Hp).
-  rewrite Forall_forall in Hok. destruct (Hok p Hp) as (Hc & Hs & Hm & He).
+  rewrite Forall_forall in Hok. destruct (Hok p Hp) as (Hc & Hs & Hq & Hm & He).
   unfold rec_positions, record_of. cbn [c_seq c_start c_cigar c_md]. fold (pexpand p).
   rewrite Hm, md_roundtrip.
   - now rewrite map_map.
@@ -112,17 +143,30 @@ Proof.
 Qed.
 
 (* ---- C15_tags *)
-Lemma record_tags caller ref maxN m reads recs r :
-  consensus caller ref maxN m reads = Some recs -> In r recs ->
+Lemma tags_spec m :
+  tag_str tagSM m = Some (m_sample m) /\ tag_int tagDS m = m_site m /\ tag_str tagRX m = m_umi m /\
+  tag_str tagBC m = option_map (fun _ => m_bc m) (m_umi m) /\
+  tag_str tagMI m = option_map (fun u => m_bc m ++ u) (m_umi m) /\
+  tag_int tagTF m = Some (m_fragments m + m_overflow m).
+Proof.
+  unfold tag_str, tag_int, tags_of, gen_tags, tagSM, tagDS, tagRX, tagBC, tagMI, tagTF.
+  cbn [flat_map fst snd guard_ok tag_value Z.eqb Pos.eqb app].
+  destruct (m_site m) as [st|], (m_umi m) as [u|]; cbn [option_map app tag_get Z.eqb Pos.eqb];
+    rewrite ?shape_TF; repeat split; reflexivity.
+Qed.
+
+Lemma record_tags caller qcaller ref maxN m reads recs r :
+  consensus caller qcaller ref maxN m reads = Some recs -> In r recs ->
   c_SM r = m_sample m /\ c_RX r = m_umi m /\ c_DS r = m_site m /\
   c_TF r = m_fragments m + m_overflow m /\
   c_reverse r = match m_strand m with Some b => b | None => false end /\
   (forall u, m_umi m = Some u -> c_BC r = Some (m_bc m) /\ c_MI r = Some (m_bc m ++ u)).
 Proof.
-  intros H Hr. destruct (consensus_inv _ _ _ _ _ _ H) as (s & ps & Hne & -> & _).
+  intros H Hr. destruct (consensus_inv _ _ _ _ _ _ _ H) as (s & ps & Hne & -> & _).
   apply in_map_iff in Hr. destruct Hr as (p & <- & Hp).
-  unfold record_of. cbn [c_SM c_RX c_DS c_TF c_reverse c_BC c_MI]. repeat split; try reflexivity.
-  all: rewrite H0; reflexivity.
+  destruct (tags_spec m) as (T1 & T2 & T3 & T4 & T5 & T6).
+  unfold record_of. cbn [c_SM c_RX c_DS c_TF c_reverse c_BC c_MI]. rewrite T1, T2, T3, T4, T5, T6.
+  repeat split; try reflexivity. all: rewrite H0; reflexivity.
 Qed.
 
 (* ---- the record start is the first covered position of the record; records are in order *)
@@ -132,11 +176,11 @@ Proof.
   cbn [expand]. rewrite (zrange_cons pos (pos + n)) by lia. cbn [app]. eauto.
 Qed.
 
-Lemma record_start caller ref maxN m reads recs r :
-  consensus caller ref maxN m reads = Some recs -> In r recs ->
+Lemma record_start caller qcaller ref maxN m reads recs r :
+  consensus caller qcaller ref maxN m reads = Some recs -> In r recs ->
   exists t, rec_positions r = c_start r :: t.
 Proof.
-  intros H Hr. destruct (blocks_exact _ _ _ _ _ _ H) as (_ & _ & _ & Hok & _).
+  intros H Hr. destruct (blocks_exact _ _ _ _ _ _ _ H) as (_ & _ & _ & Hok & _).
   rewrite Forall_forall in Hok. apply (okM_expand_head maxN). apply Hok. assumption.
 Qed.
 
@@ -154,32 +198,26 @@ Qed.
 Lemma call_at_ext f g all p : (forall os, f os = g os) -> call_at f all p = call_at g all p.
 Proof. intros H. unfold call_at. destruct (obs_at all p); [reflexivity|apply H]. Qed.
 
-Lemma step_ext f g maxN st o : (forall p, f p = g p) -> step f maxN st o = step g maxN st o.
+Lemma step_ext f g qf qg maxN st o : (forall p, f p = g p) -> (forall p, qf p = qg p) ->
+  step f qf maxN st o = step g qg maxN st o.
 Proof.
-  intros H. destruct o as [a|a]; cbn [step]; [|reflexivity].
-  f_equal. f_equal. apply map_ext. intros p. apply H.
+  intros H Hq. destruct o as [a|a]; cbn [step]; [|reflexivity].
+  f_equal; f_equal; apply map_ext; intros p; [apply H|apply Hq].
 Qed.
 
-Lemma partial_reads_ext f g maxN c s : (forall p, f p = g p) ->
-  partial_reads f maxN c s = partial_reads g maxN c s.
+Lemma partial_reads_ext f g qf qg maxN c s : (forall p, f p = g p) -> (forall p, qf p = qg p) ->
+  partial_reads f qf maxN c s = partial_reads g qg maxN c s.
 Proof.
-  intros H. unfold partial_reads.
-  assert (G : forall st, fold_left (step f maxN) c st = fold_left (step g maxN) c st).
+  intros H Hq. unfold partial_reads.
+  assert (G : forall st, fold_left (step f qf maxN) c st = fold_left (step g qg maxN) c st).
   { induction c as [|o c IH]; intros st; cbn [fold_left]; [reflexivity|].
-    rewrite (step_ext f g maxN st o H). apply IH. }
+    rewrite (step_ext f g qf qg maxN st o H Hq). apply IH. }
   now rewrite G.
 Qed.
 
-Lemma consensus_ext f g ref maxN m reads : (forall os, f os = g os) ->
-  consensus f ref maxN m reads = consensus g ref maxN m reads.
+Lemma consensus_ext f g qf qg ref maxN m reads : (forall os, f os = g os) -> (forall os, qf os = qg os) ->
+  consensus f qf ref maxN m reads = consensus g qg ref maxN m reads.
 Proof.
-  intros H. unfold consensus. destruct (alignment_start _); [|reflexivity].
-  f_equal. f_equal. apply partial_reads_ext. intros p. now apply call_at_ext.
-Qed.
-
-Lemma run_model_is_call tab ref maxN m reads : valid_tab tab = true ->
-  consensus (fun os => fst (call_fast (pc_of tab) os)) ref maxN m reads =
-  consensus (fun os => fst (call (pc_of tab) os)) ref maxN m reads.
-Proof.
-  intros Hv. apply consensus_ext. intros os. apply call_fast_correct. now apply pc_of_range.
+  intros H Hq. rewrite !consensus_unfold. destruct (alignment_start _); [|reflexivity].
+  f_equal. f_equal. apply partial_reads_ext; intros p; [now apply call_at_ext|apply Hq].
 Qed.
